@@ -176,3 +176,13 @@ func (l *Lazy) MemoBeforeSuccess(load func() ([]int, error)) ([]int, error) {
 	l.items = append(l.items, more...)
 	return l.items, nil
 }
+
+// SilentLimit violates R5.8/R20.7 LIMIT-TRUNCATION: the cap turns a long input into a short one without an error.
+func SilentLimit(r io.Reader, max int64) ([]byte, error) {
+	return io.ReadAll(io.LimitReader(r, max))
+}
+
+// AssemblesSameByteTwice violates R7.10 BYTE-ASSEMBLY: the middle byte is used twice, the last one never.
+func AssemblesSameByteTwice(data []byte, i int) uint32 {
+	return uint32(data[i])<<16 | uint32(data[i+1])<<8 | uint32(data[i+1])
+}
